@@ -187,6 +187,7 @@ type Event struct {
 	TruthErr error
 	HasTruth bool
 	TruthAll map[string]bool // fresh truth of every rule at a BeginCycle (optional)
+	Faulted  bool            // the evaluation during which the injected probe fault happened
 }
 
 func (e Event) String() string {
